@@ -113,8 +113,8 @@ def judge(ctx, binary, traces, tag, seen, exe=None):
     def one_i(it):
         i, ev = it
         return validate_history_trace(ctx, SPEC, "WatcherITrace", ev, tag="%si%d" % (tag, i), max_rounds=3)
-    res = parallel(one, list(enumerate(traces)), n=6)
-    res_i = parallel(one_i, list(enumerate(traces)), n=6)
+    res = parallel(one, list(enumerate(traces)), n=4)
+    res_i = parallel(one_i, list(enumerate(traces)), n=4)
     for (acc, rejected, _), (acc_i, rej_i, _), ev in zip(res, res_i, traces):
         _, hs = split_histories(ev)
         ctx.cov["traces_validated_against_impl"] += acc
@@ -171,7 +171,7 @@ def run(ctx):
     jobs = [("MC_bug_%s.cfg" % b, b, True) for b in BUGS] + [("MC_wit_healthy.cfg", "wit-healthy", True), ("MC_wit_third.cfg", "wit-third", True)]
     def mc(job):
         return ctx.tlc(sd, "MC_C20", job[0], workers=2, timeout=600, label="expected violated: %s" % job[1])
-    for job, r in zip(jobs, parallel(mc, jobs, n=6)):
+    for job, r in zip(jobs, parallel(mc, jobs, n=4)):
         if r.violated is None:
             raise Broken("%s is not refuted / not reachable (vacuous check): %r" % (job[1], r))
 
